@@ -1308,11 +1308,66 @@ def variant(rng, gl: GLang, e):
     return ("app", e, ("ann", ("dash",), gl.gen_ty(r, 0))), "shape"
 
 
+def _ast(t):
+    """JSON lists back to the tuples the generators use"""
+    if isinstance(t, list):
+        if t and t[0] in ("op", "dash", "num", "app", "ann"):
+            return tuple(_ast(x) if isinstance(x, list) else x for x in t)
+        if len(t) == 2 and isinstance(t[0], str) and isinstance(t[1], list):
+            return (t[0], [_ast(a) for a in t[1]])
+    return t
+
+
+def oracle_case(d: dict) -> list[dict]:
+    """A stored case (replay file or corpus entry) on the implementation alone.
+    kind 'fuzz': the string must not raise outside the declared families.
+    otherwise: every string of the entry must parse to the programmatic
+    construction of its tree.  -> list of failures"""
+    gl = GLang.from_description(d["language"]).build()
+    fails = []
+    if "tree_ast" not in d:
+        ni = d.get("ninputs", 0)
+        code, info, _, _, dt = impl_parse(gl, d["string"], [None] * ni)
+        if code == 99:
+            fails.append({"string": d["string"], "what": "undeclared exception", "impl_info": info})
+        return fails
+    e = _ast(d["tree_ast"])
+    decl = [_ast(t) if t is not None else None for t in d.get("input_decl", [])]
+    evs, resv = spec_events(gl, e, len(decl))
+    pcode, proot, pin, pname = replay_events(gl, evs, decl, resv)
+    want = (pcode, fixed_canon(gl, proot, pin) if pcode == 0 else None)
+    strings = d.get("strings") or [d["string"]] + ([d["other_string"]] if d.get("other_string") else [])
+    for s in strings:
+        code, info, ex, inputs, _ = impl_parse(gl, s, decl)
+        got = (code, fixed_canon(gl, ex, inputs) if code == 0 else None)
+        if got != want:
+            fails.append({"string": s, "what": "parsed expression differs from programmatic construction",
+                          "parsed": str(got if code == 0 else info), "programmatic": str(want if pcode == 0 else pname)})
+    return fails
+
+
 def main(tier: str, seed: int, replay: str | None = None) -> int:
     C.force_repo_on_path()
     rep = C.Report("C13", tier, seed)
+    if replay:
+        d = json.loads(open(replay).read())
+        fails = oracle_case(d)
+        for i, f in enumerate(fails):
+            rep.violation(f"replayed_{i}", dict(d, **f, kind="oracle"), has_input=True, signature=d.get("signature"))
+        rep.coverage.update({"replayed": replay, "failures": len(fails)})
+        return rep.finish(C.TRUSTED)
     rep.proof_stage()
     rng = random.Random(seed)
+    # ---- corpus: witnesses of past failures, always run first
+    ncorpus = 0
+    cdir = C.CORPUS / "C13"
+    for f in sorted(cdir.glob("*.json")) if cdir.is_dir() else []:
+        d = json.loads(f.read_text())
+        ncorpus += 1
+        for i, fl in enumerate(oracle_case(d)):
+            rep.violation(f"corpus_{f.stem}_{i}", dict(d, **fl, kind="oracle", corpus_file=str(f)),
+                has_input=True, signature=d.get("signature"))
+    rep.coverage["corpus_cases"] = ncorpus
     if tier == "quick":
         nlang, ntree, nrend, nmal = 8, 7, 8, 40
     else:
@@ -1390,6 +1445,7 @@ def main(tier: str, seed: int, replay: str | None = None) -> int:
             n_trees += 1
             sizes.append(tree_size(e))
             base = {"language": gl.describe(), "tree": tree_text(e), "inputs": [ty_text(t) if t else "_" for t in decl],
+                    "tree_ast": e, "input_decl": decl,
                     "call": "Language.parse(string, *inputs) with inputs Source(T) / Source()"}
             # programmatic construction, curried order (the specification) ...
             evs, resv = spec_events(gl, e, len(decl))
